@@ -442,6 +442,51 @@ def derived_priors(ctx):
                 ctx.violation("C15:derived-prior-raises:%s" % type(ex).__name__, "%s (%s): save/load raised %r" % (nm, where, ex), dict(kind="derived-prior", which=nm, where=where))
 
 
+def same_state(a, b):
+    """two objects hold the same state: every instance attribute (what the constructor arguments became), recursively;
+    functions defined inside a constructor are compared with the values they closed over"""
+    if isinstance(a, HoloPyObject) and isinstance(b, HoloPyObject):
+        if type(a) is not type(b):
+            return False
+        va, vb = vars(a), vars(b)
+        return va.keys() == vb.keys() and all(same_state(va[k], vb[k]) for k in va)
+    if isinstance(a, (list, tuple)) and isinstance(b, (list, tuple)):
+        return len(a) == len(b) and all(same_state(x, y) for x, y in zip(a, b))
+    if callable(a) and callable(b) and getattr(a, "__closure__", None) and getattr(b, "__closure__", None):
+        ca, cb = [c.cell_contents for c in a.__closure__], [c.cell_contents for c in b.__closure__]
+        return equivalent(a, b) and len(ca) == len(cb) and all(same_state(x, y) for x, y in zip(ca, cb))
+    return equivalent(a, b)
+
+
+def strategies(ctx):
+    """EVERY inference strategy with EVERY constructor argument set to a non-default value, one at a time and all together:
+    the reloaded strategy holds the same state (stages, seeds, pixel counts, tolerances ...) and saves to the same text"""
+    from holopy.inference import CmaStrategy, EmceeStrategy, TemperedStrategy
+    alt = dict(npixels=123, quiet=False, ftol=1e-7, xtol=1e-6, gtol=1e-5, damp=0.5, maxiter=17, seed=11, popsize=9, resample_pixels=False,
+               parent_fraction=0.5, tols={'maxiter': 5}, parallel=2, nwalkers=20, nsamples=77, min_pixels=12, stages=2, stage_len=13, max_nfev=50)
+    for S in (NmpfitStrategy, LeastSquaresScipyStrategy, CmaStrategy, EmceeStrategy, TemperedStrategy):
+        params = [a for a in list(inspect.signature(S.__init__).parameters)[1:] if a in alt]
+        combos = [{a: alt[a]} for a in params] + [{a: alt[a] for a in params}]
+        if "resample_pixels" in params:
+            combos.append(dict(npixels=123, resample_pixels=False))
+        for kw in combos:
+            ctx.tried("strategy", (S.__name__, tuple(sorted(kw))))
+            info = dict(kind="strategy", cls=S.__name__, kwargs={k: (v if not isinstance(v, dict) else dict(v)) for k, v in kw.items()})
+            try:
+                o = S(**kw)
+                back, texts = cycle(o, 2)
+                first, _ = cycle(o, 1)
+            except Exception as ex:
+                ctx.violation("C15:strategy-raises:%s:%s" % (S.__name__, type(ex).__name__), "%s(%s) save -> load raised %r" % (S.__name__, kw, ex), info)
+                continue
+            bad = [k for k, v in vars(o).items() if k not in vars(first) or not same_state(v, vars(first)[k])]
+            if type(first) is not type(o) or bad or vars(first).keys() != vars(o).keys():
+                ctx.violation("C15:strategy-state:%s" % S.__name__, "%s(%s) reloads with other state: %s" % (
+                    S.__name__, ", ".join("%s=%r" % kv for kv in kw.items()), "; ".join("%s: %r -> %r" % (k, vars(o)[k], vars(first).get(k)) for k in bad)[:500]), dict(info, differing=bad))
+            elif texts[0] != texts[1]:
+                ctx.violation("C15:strategy-text:%s" % S.__name__, "%s(%s): saving the reloaded strategy does not reproduce the text" % (S.__name__, kw), info)
+
+
 def tricky_strings(ctx):
     """string-valued arguments that LOOK like something else to a YAML reader (numbers in every notation, booleans, null, dates,
     key syntax) come back as the same strings: prior names, names given to ties, entries of string lists"""
@@ -511,6 +556,7 @@ def search(ctx):
             ctx.violation(key, what + (" [%r]" % (r,) if r is not False else ""), dict(kind="probe", key=key))
     derived_priors(ctx)
     tricky_strings(ctx)
+    strategies(ctx)
     n = ctx.n(100, 1000)
     for i in range(n):
         try:
